@@ -793,6 +793,13 @@ impl<T: Float> Unpaired<T> {
         let stats_a = self.stats_a;
         let stats_b = self.stats_b;
 
+        if stats_a.sample_count() < 2 {
+            return Err(CIError::TooFewSamples(stats_a.sample_count()));
+        }
+        if stats_b.sample_count() < 2 {
+            return Err(CIError::TooFewSamples(stats_b.sample_count()));
+        }
+
         let n_a = T::from(stats_a.sample_count()).convert("stats_a.sample_count")?;
         let n_b = T::from(stats_b.sample_count()).convert("stats_b.sample_count")?;
         let mean_a = stats_a.sample_mean();
@@ -814,12 +821,14 @@ impl<T: Float> Unpaired<T> {
                 / (sa2_na * sa2_na / (n_a + T::one())
                     + sb2_nb * sb2_nb / (n_b + T::one())) - T::one() - T::one();
 
-        let (lo, hi) = stats::interval_bounds(
-            confidence,
-            mean_difference.try_f64("mean_difference")?,
-            std_err_mean.try_f64("std_err_mean")?,
-            effective_dof.try_f64("effective_dof")?,
-        );
+        let mean_difference = mean_difference.try_f64("mean_difference")?;
+        let std_err_mean = std_err_mean.try_f64("std_err_mean")?;
+        let effective_dof = effective_dof.try_f64("effective_dof")?;
+        if !mean_difference.is_finite() || !std_err_mean.is_finite() || !(effective_dof > 0.) {
+            return Err(CIError::InvalidInputData);
+        }
+        let (lo, hi) =
+            stats::interval_bounds(confidence, mean_difference, std_err_mean, effective_dof);
         let lo = T::from(lo).convert("lo")?;
         let hi = T::from(hi).convert("hi")?;
         match confidence {
